@@ -118,9 +118,21 @@ def check_extract(case):
         _check_extract(res.value, expected, f"extract({texts[name]!r})")
         results[name] = res.value
     if all(results.values()):
+        before = {name: _norm(results[name]) for name in ("A", "B")}
         union = sut.call(lambda: results["A"] + results["B"])
         if not union.ok:
             fail("union", f"extract(A) + extract(B) raised {union!r}")
+        # the summands are values: composing them must not change them (they are re-used for further compositions)
+        for name in ("A", "B"):
+            if _norm(results[name]) != before[name]:
+                fail("union-modifies-operand", f"extract({texts[name]!r}) was changed by being used as a summand: "
+                     f"{before[name]} became {_norm(results[name])}")  # fmt: skip
+        again = sut.call(lambda: results["B"] + results["A"])
+        if not again.ok or _norm(again.value) != _norm(union.value):
+            fail("union", f"extract(B) + extract(A) = {again!r} differs from extract(A) + extract(B) = {union.value}")
+        twice = sut.call(lambda: results["A"] + results["A"])
+        if not twice.ok or _norm(twice.value) != before["A"]:
+            fail("union", f"extract(A) + extract(A) = {twice!r} is not extract(A) = {before['A']}")
         _check_extract(union.value, _expected_lists(asts["AB"]), "extract(A) + extract(B)")
         if _norm(union.value) != _norm(results["AB"]):
             fail("union", f"extract({texts['AB']!r}) = {results['AB']} but extract(A) + extract(B) = {union.value}")
